@@ -44,6 +44,8 @@ def main(tier, seed, replay=None):
     for i, c in enumerate(cases):
         c["id"] = i
     results = run_harness(binp, "scenario", cases, workdir, timeout_ms=20000)
+    cases, results, nrel = with_release("scenario", cases, results, workdir, timeout_ms=20000)
+    run.coverage["release_profile_cases_differing_from_dev"] = nrel
     terms, idx = [], []
     sterms, sidx = [], []
     svd_budget = 60 if tier == "quick" else 2000
